@@ -221,6 +221,9 @@ def death_during_manager_msg(seed: int, n: int) -> List[List[dict]]:
                     for t in notice + (() if (trigger == "active" and c == "v") else (80,)):
                         b += [snd(c, sub(15, mid, t)), rnd("", [c], names)]
                 b += [snd("v", sub(15, 4, 1234)), snd("q", sub(15, 6, 1234)), rnd("", ["v", "q"], names)]
+                if wcase == "second-dead":
+                    # the second victim receives the same messages as the first (and the notices about it)
+                    b += [snd("m2", sub(15, 3, 1234)), rnd("", ["m2"], names)]
                 b += [{"a": "Die", "c": "v"}]
                 if wcase == "second-dead":
                     b += [{"a": "Die", "c": "m2"}]
@@ -249,4 +252,31 @@ def death_during_manager_msg(seed: int, n: int) -> List[List[dict]]:
                 out.append(b)
     if n and n < len(out):
         out = random.Random(seed).sample(out, n)
+    return out
+
+
+
+def two_loggers(seed: int, n: int) -> List[List[dict]]:
+    """two logger modules and a plain module: every control frame - also those SENT BY a logger - is acknowledged to its
+    sender and copied to every (other) logger; data reaches both loggers whatever select reports as writable."""
+    out = []
+    cast = [("l1", 3, 1), ("l2", 4, 1), ("p", 5, 0), ("q", 6, 0)]
+    names = [c for c, _, _ in cast]
+    ctl = [("l1", 3, 15, 777), ("l2", 4, 15, ALL), ("p", 5, 15, 1234), ("l1", 3, 16, 777), ("l2", 4, 85, 1234), ("l1", 3, 86, 555),
+           ("q", 6, 16, 999), ("l2", 4, 16, ALL), ("l1", 3, 15, ALL), ("l1", 3, 15, ALL), ("p", 5, 85, 1234), ("p", 5, 86, 1234)]
+    for v2 in (False, True):
+        for wcase in (names, ["p", "q"], ["l1", "p"], []):
+            b = []
+            for c, mid, lg in cast:
+                b += [opn(c), rnd(c)]
+            for c, mid, lg in cast:
+                b += [snd(c, con2(mid, 0, c, lg=lg) if v2 else con(mid, lg))]
+                if v2:
+                    b += [snd(c, con(mid, lg))]
+            b += [rnd("", names, names)] + ([rnd("", names, names)] if v2 else [])
+            for (c, mid, ty, mt) in ctl:
+                b += [snd(c, sub(ty, mid, mt)), rnd("", [c], list(wcase) if wcase else [c])]
+            b += [snd("q", data(1234, 6, 0, 0, 1)), rnd("", ["q"], list(wcase) + ["q"])]
+            b += [snd("q", data(1234, 6, 5, 0, 2)), rnd("", ["q"], list(wcase) + ["q"])]
+            out.append(b)
     return out
